@@ -53,7 +53,10 @@ pub fn be_packet(datagram: &mut BytesMut, dcid_len: usize) -> Result<Packet, Err
     })?;
     let (remain, header) = be_header(pkty, dcid_len, remain).map_err(|e| match e {
         ne @ nom::Err::Incomplete(_) => Error::IncompleteHeader(pkty, ne.to_string()),
-        _ => unreachable!("parsing packet header never generates error or failure"),
+        // e.g. a connection ID length byte above 20: the datagram is malformed, drop it
+        nom::Err::Error(ne) | nom::Err::Failure(ne) => {
+            Error::IncompleteHeader(pkty, ne.code.description().to_owned())
+        }
     })?;
     match header {
         Header::VN(header) => {
